@@ -124,8 +124,12 @@ def epat(t):
     if k == 'par':
         return Ppar(*[epat(x) for x in t[1:]])
     if k == 'dur':
+        if len(t) > 4:
+            return Pdur(num(t[1]), epat(t[3]), num(t[2]), quant=num(t[4]))
         return Pdur(num(t[1]), epat(t[3]), num(t[2]))
     if k == 'delta':
+        if len(t) > 3 and t[3] == 'pad':
+            return epat(t[2])            # the silence is the quant padding of the Pdur before it
         return Pdelta(num(t[1]), epat(t[2]))
     raise ValueError(t)
 
